@@ -584,7 +584,7 @@ def run_c19(tier, seed, keep=False):
         isstart = lambda x: x.startswith('{"op":"reset"')
         # verdict: vertices, successors/predecessors with weights, mirror, applicability - what the property talks about;
         # drift: the row structure of the internal maps, the invariants of the specification state
-        inv = ["Conforms", "Applicable", "ApiMirror", "NoPanic"]
+        inv = ["Conforms", "Applicable", "ApiMirror", "NoPanic", "SearchOK"]
         dinv = ["RowsConform", "Mirror", "EdgesAmongPresent", "DomAgree", "ReverseTwice"]
         g4 = dict(gconst, Keys='{"a","b","c","d"}', MaxHandles="4")
         rc = 0
